@@ -228,3 +228,5 @@ def run(check):
     check.run_rule('C15.R9', lambda c: rule_source_helpers(c, {'depths': 'C15.R9', 'arith': None, 'dedup': None, 'complete': None}))
     from ..rules_escape import rule_validation_converted
     check.run_rule('C15.R13', lambda c: rule_validation_converted(c, 'C15.R13'))
+    from ..rules_mask import rule_remove_helper_contract
+    check.run_rule('C15.R14', lambda c: rule_remove_helper_contract(c, M.mask(), 'C15.R14'))
